@@ -241,6 +241,35 @@ CHECKS['C12'] = dict(
     technique="TLA+ line-search machine model-checked + objective/gradient certificate evaluated by TLC on recorded fits",
     ref="DESIGN.md section 5 C12")
 
+CHECKS['C13'] = dict(
+    text=("MC_SDML (TLC, exact rationals): on closed-form 2x2 instances the duality-gap certificate is exactly 0 and the "
+          "sub-gradient condition holds. Conformance: real SDML / SDML_Supervised fits over priors x sparsity_param x "
+          "balance_param inside and outside the region where the graphical-lasso input is positive definite; TLC "
+          "(TR_SDML) recomputes the input matrix E = M0^-1 + balance sum y v v^T from the logged pairs (prior inverse "
+          "verified), decides the region from a verified Cholesky factor of E, verifies the dual-feasible witness W (box "
+          "|W_ij - E_ij| <= alpha, W_ii = E_ii, Cholesky) and requires g(M) - (logdet W + d) <= 2^-7 (1 + |g|); M must be "
+          "finite SPD whenever fit returns, and the only admissible failure is RuntimeError (never inside the PD region)."),
+    note=("The 'independently computed solution' of the statement is replaced by a duality-gap certificate (stronger than "
+          "comparing two solvers, loose by the solver tolerance 2^-7). libm log trusted. Cases where clipping M^-1 into "
+          "the box does not give a positive definite dual point are inconclusive (X13) and counted."),
+    technique="TLA+ primal/dual definitions + duality-gap certificate evaluated by TLC on recorded fits",
+    ref="DESIGN.md section 5 C13")
+CHECKS['C10'] = dict(
+    text=("MC_LMNN (TLC): the backtracking machine over an abstract objective oracle - accepted objectives non-increasing, "
+          "never worse than the initial point, zero iterations return the initial point. Conformance: every (L, value, "
+          "gradient) that the optimiser asks for in real NCA / MLKR / LMNN fits is recorded by wrapping the module-level "
+          "minimize resp. LMNN._loss_grad; TLC (TR_GradObj) recomputes the documented objective and its analytic "
+          "derivative at that L in exact dyadic arithmetic - NCA / MLKR through a verified soft-max witness (arguments "
+          "recomputed exactly, exp tabulated, normalisation checked), LMNN exactly with the target sets verified as k "
+          "nearest same-class points - and decides on its own numbers: result not worse than the initialisation, first "
+          "evaluation at the documented initialisation, zero optimiser iterations return it bit for bit, LMNN returns "
+          "its last accepted iterate and accepted objectives are non-increasing."),
+    note=("libm exp trusted (range / monotonicity / e(0)=1 checked). 'Zero iterations' is keyed on the optimiser's own "
+          "iteration count (L-BFGS-B with maxiter=0 still iterates once). At most 5 (NCA/MLKR) / 10 (LMNN) evaluations "
+          "per fit are recomputed; a rejected witness makes the evaluation inconclusive (X10)."),
+    technique="TLA+ objective/gradient definitions evaluated by TLC at every recorded optimiser evaluation + backtracking machine",
+    ref="DESIGN.md section 5 C10")
+
 NOT_YET = {}
 
 def main():
